@@ -28,7 +28,7 @@ def main():
             row = {}
             for p in [prop] + EXTRA.get(s, []):
                 t0 = time.time()
-                env = dict(os.environ, NBDIME_REPO=repo)
+                env = dict(os.environ, NBDIME_REPO=repo, VERIF_EVIDENCE_DIR=os.path.join(scratch, 'evidence'), PYVC_CACHE='1')
                 pr = subprocess.run([os.path.join(HERE, 'check'), p, '--tier', 'quick'], capture_output=True, text=True, env=env, cwd=HERE)
                 viol = [l for l in pr.stdout.splitlines() if l.startswith('VIOLATION')]
                 detail = ''
